@@ -4,6 +4,8 @@ import SynapModel.Drv.Train
 import SynapModel.Drv.Modules
 import SynapModel.Drv.Optim
 import SynapModel.Drv.Layers
+import SynapModel.Drv.Tensor
+import SynapModel.Drv.Init
 /-!
 # `synapdrv` : line-protocol interpreter of the model
 
@@ -16,6 +18,7 @@ structure State where
   mods : Modules.World := Modules.World.empty
   opt : Drv.Optim.St := .none
   bn : Drv.Layers.St := {}
+  t : Drv.Tensor.St := {}
 
 def step (st : State) (line : String) : State × String :=
   let toks := (line.trimAscii.toString.splitOn " ").filter (· ≠ "")
@@ -26,6 +29,8 @@ def step (st : State) (line : String) : State × String :=
   | "mod" :: rest => let (w, o) := Drv.Modules.run st.mods rest; ({ st with mods := w }, o)
   | "opt" :: rest => let (w, o) := Drv.Optim.run st.opt rest; ({ st with opt := w }, o)
   | "bn" :: rest => let (w, o) := Drv.Layers.run st.bn rest; ({ st with bn := w }, o)
+  | "t" :: rest => let (w, o) := Drv.Tensor.run st.t rest; ({ st with t := w }, o)
+  | "init" :: rest => (st, Drv.Init.run rest)
   | "reset" :: _ => ({}, "ok")
   | _ => (st, "bad-op")
 
